@@ -33,6 +33,8 @@ class RandomTap:
         self.counts = Counter()
         self.fallbacks = Counter()
         self.other = Counter()
+        self.recent_bits = {}
+        self.reseeds = []
 
     # -- helpers ---------------------------------------------------------------------
     def _next(self, kind):
@@ -163,9 +165,24 @@ class RandomTap:
         self._ev("sample", len(population), None)
         return r
 
-    def seed(self, *a, **k):
+    def getrandbits(self, k):
+        v = self.rng.getrandbits(k)
+        self.other["getrandbits"] += 1
+        self.recent_bits[v] = k
+        if len(self.recent_bits) > 64:
+            self.recent_bits.pop(next(iter(self.recent_bits)))
+        return v
+
+    def seed(self, a=None, *rest, **kw):
+        """RNG provenance: code under test that re-seeds the random source it was given makes everything it draws afterwards a
+        function of the seed value; the number of bits that value can carry (known when it was itself obtained from
+        getrandbits(k), otherwise its bit length) is recorded for the monitors"""
         self.other["seed"] += 1
-        return self.rng.seed(*a, **k)
+        bits = None
+        if isinstance(a, int) and not isinstance(a, bool):
+            bits = self.recent_bits.get(a, max(1, a.bit_length()))
+        self.reseeds.append({"bits": bits, "from_getrandbits": isinstance(a, int) and a in self.recent_bits, "value_type": type(a).__name__})
+        return self.rng.seed(a, *rest, **kw)
 
     def __getattr__(self, name):
         # anything else (uniform, gauss, getrandbits ...) is delegated, deterministic, and counted
@@ -186,6 +203,10 @@ _MODULES = {
     "drawset": "gcmpy.tools.draw_set",
     "mcmc": "gcmpy.tools.markov_chain_monte_carlo_rewiring",
     "bond": "gcmpy.tools.bond_percolate",
+    "network": "gcmpy.gcm_algorithm.gcm_algorithm_network",
+    "algbase": "gcmpy.gcm_algorithm.gcm_algorithm",
+    "factory": "gcmpy.gcm_algorithm.gcm_algorithm_factory",
+    "main": "gcmpy.gcm_algorithm.gcm_algorithm_main",
 }
 
 _FN_NAMES = ("shuffle", "choice", "choices", "random", "randrange", "randint", "sample")
